@@ -204,7 +204,7 @@ namespace
     {
         static const std::vector<DeepRecipe> r = {
             { "G1", { "(" }, { "num" }, { ")" }, { ";" }, 1 },
-            { "G2", { "(" }, { "id" }, { ")" }, {}, 1 },
+            { "G2", { "(" }, { "r_[a-z][a-z0-9]*" }, { ")" }, {}, 1 },
             { "G3", { "x" }, {}, {}, {}, 2 },
             { "G4", { "[" }, { "num" }, { "]" }, {}, 1 },
             { "G4", { "{", "str", ":" }, { "num" }, { "}" }, {}, 3 },
@@ -236,6 +236,8 @@ bool make_deep_op(PlanOp& op, Rng& rng, const std::string& key, int target)
     const DeepRecipe& r = *cand[size_t(rng.below(cand.size()))];
     int depth = (target + rng.range(-8, 8)) / r.per_level;
     if (depth < 1) depth = 1;
+    for (const auto* lst : { &r.open, &r.core, &r.close, &r.tail })
+        for (const char* nm : *lst) if (term_by_name(*m, nm) < 0) return false;      // recipe out of date with the spec
     auto tok = [&](const char* name) -> PTok
     {
         PTok t; t.term = term_by_name(*m, name);
